@@ -2,12 +2,12 @@ package main
 
 import (
 	"bytes"
+	"sort"
 	"context"
 	"fmt"
 	"os"
 	"os/exec"
 	"path/filepath"
-	"regexp"
 	"strings"
 	"sync"
 	"time"
@@ -53,6 +53,16 @@ func (u *Unit) Query(o *Obligation, wantModel bool, relaxed bool) string {
 	b.WriteString("(check-sat)\n")
 	if wantModel {
 		b.WriteString("(get-model)\n")
+		var wits []string
+		for name := range u.declared {
+			if strings.HasPrefix(name, "wit$") {
+				wits = append(wits, name)
+			}
+		}
+		if len(wits) > 0 {
+			sort.Strings(wits)
+			b.WriteString("(echo \"witness-values\")\n(get-value (" + strings.Join(wits, " ") + "))\n")
+		}
 	}
 	return b.String()
 }
@@ -89,19 +99,103 @@ func runSolver(ctx context.Context, sp SolverSpec, file string) solveOut {
 	return solveOut{sp.Name, "error", s, d}
 }
 
-var modelRe = regexp.MustCompile(`\(define-fun\s+(\S+)\s+\(\)\s+(\([^()]*\)|\S+)\s+([^\n]*)`)
-
+// parseModel extracts the nullary definitions of a (get-model) answer: name -> value text.
 func parseModel(out string) map[string]string {
 	m := map[string]string{}
-	// join lines: z3 prints "(define-fun x () Int\n    5)"
-	txt := strings.ReplaceAll(out, "\n   ", " ")
-	for _, mm := range modelRe.FindAllStringSubmatch(txt, -1) {
-		v := strings.TrimSpace(mm[3])
-		v = strings.TrimSuffix(v, ")")
-		v = strings.TrimSpace(v)
-		m[strings.Trim(mm[1], "|")] = v
+	// evaluated witness values, if the solver printed them, take precedence over raw definitions
+	defer func() {
+		k := strings.Index(out, "witness-values")
+		if k < 0 {
+			return
+		}
+		rest := out[k+len("witness-values"):]
+		p := strings.Index(rest, "((")
+		if p < 0 {
+			return
+		}
+		tops := sexpTop(rest[p:])
+		if len(tops) == 0 {
+			return
+		}
+		inner := tops[0]
+		for _, pair := range sexpTop(inner[1 : len(inner)-1]) {
+			kv := sexpTop(pair[1 : len(pair)-1])
+			if len(kv) == 2 {
+				m[strings.Trim(kv[0], "|")] = strings.Join(strings.Fields(kv[1]), " ")
+			}
+		}
+	}()
+	i := strings.Index(out, "(define-fun")
+	for i >= 0 && i < len(out) {
+		// find the matching close paren of this define-fun
+		depth, j := 0, i
+		for ; j < len(out); j++ {
+			if out[j] == '(' {
+				depth++
+			} else if out[j] == ')' {
+				depth--
+				if depth == 0 {
+					break
+				}
+			}
+		}
+		if j >= len(out) {
+			break
+		}
+		body := out[i+len("(define-fun") : j]
+		toks := sexpTop(body)
+		// name () sort value
+		if len(toks) == 4 && toks[1] == "()" {
+			m[strings.Trim(toks[0], "|")] = strings.Join(strings.Fields(toks[3]), " ")
+		}
+		k := strings.Index(out[j:], "(define-fun")
+		if k < 0 {
+			break
+		}
+		i = j + k
 	}
 	return m
+}
+
+// sexpTop splits s into its top-level s-expressions.
+func sexpTop(s string) []string {
+	var out []string
+	i := 0
+	for i < len(s) {
+		for i < len(s) && (s[i] == ' ' || s[i] == '\n' || s[i] == '\t' || s[i] == '\r') {
+			i++
+		}
+		if i >= len(s) {
+			break
+		}
+		start := i
+		if s[i] == '(' {
+			depth := 0
+			for ; i < len(s); i++ {
+				if s[i] == '(' {
+					depth++
+				} else if s[i] == ')' {
+					depth--
+					if depth == 0 {
+						i++
+						break
+					}
+				}
+			}
+		} else if s[i] == '|' {
+			i++
+			for i < len(s) && s[i] != '|' {
+				i++
+			}
+			i++
+		} else {
+			for i < len(s) && s[i] != ' ' && s[i] != '\n' && s[i] != '\t' && s[i] != '(' && s[i] != ')' {
+				i++
+			}
+		}
+		out = append(out, s[start:i])
+	}
+	return out
 }
 
 // Solve discharges one obligation with the portfolio.
